@@ -72,7 +72,7 @@ def _ops():
         ('CloseEnumeration', lambda cn, kv, sv, ns, f, n: dict(context=(kv, ns or 'x/y')), None),
         ('InvokeMethod', lambda cn, kv, sv, ns, f, n: dict(MethodName=sv or 'M', ObjectName=CIMClassName(cn, namespace=ns, host='hh' if n % 2 else None) if f else path(cn, kv, ns, 'hh' if n % 2 else None),
                                                            Params=[('p1', kv), ('p2', Uint8(n)), ('p3', [True, False]), ('p4', path(cn, kv)), ('p5', None),
-                                                                   ('p6', [EMB, EMB2])], Extra=f), 'ObjectName'),
+                                                                   ('p6', [EMB, EMB2]), ('p7', [Uint8(n), None])], Extra=f), 'ObjectName'),
     ]
 
 
